@@ -175,14 +175,18 @@ def blank(i, op):
             "base_failset": [], "failset": [], "writes": [], "unchanged": True}
 
 
-def ruletest_event(i, rr, doc, entry="raw", lit=None):
+def ruletest_event(i, rr, doc, entry="raw", lit=None, spec=None):
+    """spec: when given, the rule is built by Rule.from_spec(spec) (a spelling of the recipe rr) instead of the API"""
     import valida
 
     e = blank(i, "ruletest")
     e["entry"] = entry
     e["rule"] = enc_rule_recipe(rr)
     e["doc"] = enc_val(doc)
-    out0, rule = outcome_of(lambda: build_rule(rr))
+    if spec is not None:
+        out0, rule = outcome_of(lambda: valida.Rule.from_spec(spec))
+    else:
+        out0, rule = outcome_of(lambda: build_rule(rr))
     if out0 in ("raised:TypeError", "raised:ValueError"):
         raise TypeError("unconstructible recipe")
     if out0 != "ok":
